@@ -449,4 +449,59 @@ class ElitismOnSynthesisedTrees(Facet):
             w.cleanup()
 
 
-FACETS = [ExhaustiveElitism(), GeneratedElitism(), MonotoneBest(), ElitismBesideSiblings(), ElitismOnSynthesisedTrees()]
+class ElitismAcrossShortLivedProblems(Facet):
+    """The same individuals are ranked by ElitismStep under a succession of problems, each built inside
+    a helper, used once and released (other direction, other fitness function): every ranking must
+    go by the problem at hand - whatever an individual still remembers of a problem that is gone."""
+
+    name = "elitism_across_short_lived_problems"
+
+    def budget(self, tier):
+        return (80, 2) if tier == "quick" else (500, 8)
+
+    def strategy(self, tier):
+        return st.builds(
+            lambda vals, gens, k: {"values": vals, "generations": gens, "k": k},
+            st.lists(st.integers(0, 30), min_size=3, max_size=10, unique=True),
+            st.lists(st.tuples(st.booleans(), st.sampled_from(["identity", "negated", "mod7", "reversed-rank"])), min_size=2, max_size=8),
+            st.integers(1, 9),
+        )
+
+    def run(self, case, rec):
+        from geneticengine.algorithms.gp.operators.elitism import ElitismStep
+        from geneticengine.evaluation.sequential import SequentialEvaluator
+        from geneticengine.problems import SingleObjectiveProblem
+        from geneticengine.random.sources import NativeRandomSource
+        from geneticengine.solutions.individual import Individual
+
+        rep = TableRep()
+        vals = case["values"]
+        inds = [Individual((i, v), rep) for i, v in enumerate(vals)]
+        k = 1 + (case["k"] - 1) % (len(inds) - 1)
+        fns = {"identity": lambda v: float(v), "negated": lambda v: float(-v), "mod7": lambda v: float(v % 7), "reversed-rank": lambda v: float(100 - 3 * v)}
+        bad = []
+
+        def one(g, minimize, fname):
+            f = fns[fname]
+            problem = SingleObjectiveProblem(lambda p: f(p[1]), minimize=minimize)
+            out = list(ElitismStep().apply(problem, SequentialEvaluator(), rep, NativeRandomSource(0), list(inds), k, g))
+            key = (lambda x: -f(x.genotype[1])) if minimize else (lambda x: f(x.genotype[1]))
+            rest = [x for x in inds if not any(x is o for o in out)]
+            if len(out) == k and rest and max(map(key, rest)) > min(map(key, out)):
+                bad.append((g, minimize, fname, [o.genotype[1] for o in out], max(rest, key=key).genotype[1]))
+
+        rec.sample(case, limit=2)
+        for g, (minimize, fname) in enumerate(case["generations"]):
+            one(g, minimize, fname)  # the problem object is released when one() returns
+            if bad:
+                g_, m_, f_, kept, left = bad[0]
+                rec.fail(
+                    "C16/short-lived-problems/excluded-strictly-better-than-included",
+                    f"ranking #{g_} (fitness {f_} of {vals}, minimize={m_}, k={k}): ElitismStep kept {kept} and left out {left}, which is strictly better under this problem; earlier problems (all released): {case['generations'][:g_]}",
+                )
+                return
+        if len(case["generations"]) >= 3:
+            rec.nontrivial(case)
+
+
+FACETS = [ExhaustiveElitism(), GeneratedElitism(), MonotoneBest(), ElitismBesideSiblings(), ElitismOnSynthesisedTrees(), ElitismAcrossShortLivedProblems()]
